@@ -40,10 +40,11 @@ func init() {
 }
 
 type posInput struct {
-	Kind    string   `json:"kind"` // query | schema | load | validate
+	Kind    string   `json:"kind"` // query | schema | load | validate | validate-merged
 	Sources []string `json:"sources"`
 	Names   []string `json:"names"`
 	Query   string   `json:"query,omitempty"`
+	Frags   string   `json:"frags,omitempty"` // validate-merged: the fragments, read from a file of their own
 }
 
 var c04Seps = []string{"\n", "\r", "\r\n", ",", "\t", "\xef\xbb\xbf", "#c\n", "#é😀\r", " \n ", "\n\n", "\"\"\"\né😀é\n\"\"\" ", "\"\"\"\nd\n\"\"\" "}
@@ -63,6 +64,9 @@ func posCase(c *explore.Ctx, s *explore.SubStats, in posInput) {
 	rendered := strings.Join(in.Sources, "\n---\n")
 	if in.Query != "" {
 		rendered += "\n=== query ===\n" + in.Query
+	}
+	if in.Frags != "" {
+		rendered += "\n=== fragments (file of their own) ===\n" + in.Frags
 	}
 	explore.Crumb(s.Name, rendered)
 	bad := func(key, detail string) {
@@ -147,6 +151,35 @@ func posCase(c *explore.Ctx, s *explore.SubStats, in posInput) {
 			if err == nil {
 				checkTree(d, "schemadoc")
 			}
+		case "validate-merged":
+			// one executable document put together from two files: operations from one, fragments from the other
+			sch, err := gqlparser.LoadSchema(srcs...)
+			if err != nil {
+				outcome = "schema-err"
+				break
+			}
+			ops, frs := &ast.Source{Name: "operations.graphql", Input: in.Query}, &ast.Source{Name: "fragments.graphql", Input: in.Frags}
+			pc.srcs = append(pc.srcs, ops, frs)
+			srcs = append(srcs, ops, frs)
+			od, oerr := parser.ParseQuery(ops)
+			fd, ferr := parser.ParseQuery(frs)
+			if oerr != nil || ferr != nil {
+				outcome = "query-err"
+				break
+			}
+			d := &ast.QueryDocument{Operations: od.Operations, Fragments: fd.Fragments, Position: od.Position}
+			errs := validator.Validate(sch, d)
+			if len(errs) > 0 {
+				outcome = "invalid:" + checkErr(errs, "Validate(merged)", nil)
+				for _, ge := range errs {
+					if f, _ := ge.Extensions["file"].(string); f == "" {
+						bad("pos/error no-file Validate(merged) rule="+ge.Rule, fmt.Sprintf("error %q of a document read from named files names no file", ge.Message))
+					}
+				}
+			} else {
+				outcome = "valid"
+			}
+			checkTree(d, "validated-query")
 		case "load", "validate":
 			sch, err := gqlparser.LoadSchema(srcs...)
 			outcome = checkErr(err, "LoadSchema", nil)
@@ -321,7 +354,7 @@ func runC04(c *explore.Ctx) {
 
 // c04Load: loaded schemas (single and multi-source) and validation errors.
 func c04Load(c *explore.Ctx) {
-	s := c.Sub("load-validate", "validation-kit schema rendered with every single separator deviation, split over 2–3 named sources at every cut of its top-level definitions, with one injected fault per source; × invalid documents (every validation rule fires)",
+	s := c.Sub("load-validate", "validation-kit schema rendered with every single separator deviation, split over 2–3 named sources at every cut of its top-level definitions, with one injected fault per source; × invalid documents (every validation rule fires), also put together from an operations file and a fragments file",
 		"every position in the loaded schema, every schema error and every validation error location is truthful and names the right source", "every case")
 	if s == nil {
 		return
@@ -344,6 +377,20 @@ func c04Load(c *explore.Ctx) {
 			toks := tokenTexts(q)
 			for i := 0; i <= len(toks); i++ {
 				run(posInput{Kind: "validate", Sources: []string{whole}, Names: []string{"schema.graphql"}, Query: renderGaps(toks, map[int]string{i: sep})})
+			}
+		}
+	}
+	// executable documents put together from two files (operations on line 1 of one, fragments further down in the
+	// other, so that a location of one file does not exist in the other), every separator at every gap of the fragments
+	for _, m := range [][2]string{
+		{`query Q { id node(id: "1") { ...F ...G } nope }`, `fragment F on Pet { id colour } fragment G on Node { id ...F zz }`},
+		{`{ ...H }`, `fragment H on Query { search(q: $undef) { __typename } date { x } } fragment U on Person { id }`},
+		{`query A($v: Int) { ...K } query A { id }`, `fragment K on Query @nope { list(xs: $v) k: id k: date }`},
+	} {
+		toks := tokenTexts(m[1])
+		for _, sep := range []string{"\n", "\r\n", "\r", "#é\n", "\xef\xbb\xbf"} {
+			for i := 0; i <= len(toks); i++ {
+				run(posInput{Kind: "validate-merged", Sources: []string{whole}, Names: []string{"schema.graphql"}, Query: m[0], Frags: "# shared fragments\n\n  " + renderGaps(toks, map[int]string{i: sep})})
 			}
 		}
 	}
